@@ -111,7 +111,20 @@ pub fn random_box(rng: &mut Rng) -> (DVec3, DVec3, &'static str) {
 
 /// One input of the given family. `n` is a size hint.
 pub fn make(rng: &mut Rng, family: &str, dim: usize, periodic: bool, n: usize) -> Input {
-    let (anchor, width, boxname) = random_box(rng);
+    let (mut anchor, mut width, mut boxname) = random_box(rng);
+    if family == "shallow_edge" {
+        // isotropic boxes only: the angle between the two bisector planes is what matters
+        (anchor, width, boxname) = match rng.below(3) {
+            0 => (DVec3::ZERO, DVec3::ONE, "unit"),
+            1 => (DVec3::splat(1.0), DVec3::splat(2.0), "cube12"),
+            _ => (DVec3::splat(-2e-7), DVec3::splat(1e-6), "tinycube"),
+        };
+    }
+    if family == "clump" && rng.bool() {
+        // cubic boxes: the periodic images across the body diagonal are the farthest true neighbours a cell can have
+        (anchor, width, boxname) = if rng.bool() { (DVec3::ZERO, DVec3::ONE, "unit") } else { (DVec3::splat(1.0), DVec3::splat(2.0), "cube12") };
+    }
+    let n = if family == "clump" { n.max(8) } else { n };
     let mut gens: Vec<DVec3> = vec![];
     match family {
         "uniform" => {
@@ -289,6 +302,70 @@ pub fn make(rng: &mut Rng, family: &str, dim: usize, periodic: bool, n: usize) -
             gens.push(lerp(anchor, width, rand_unit(rng)));
             gens.push(lerp(anchor, width, rand_unit(rng)));
         }
+        // two neighbours of generator 0 that are only 1e-6 … 8e-6 box units apart, 0.4 box units away from it: their bisector
+        // planes meet in an edge at a very shallow angle (1e-5 rad), far from the foot point of the generator; 2 further generators
+        "shallow_edge" => {
+            let g = DVec3::new(0.3 + 0.1 * rng.f64(), 0.45 + 0.1 * rng.f64(), 0.45 + 0.1 * rng.f64());
+            let u = DVec3::new(1.0, 0.2 * (rng.f64() - 0.5), 0.2 * (rng.f64() - 0.5)).normalize();
+            let mut v = DVec3::new(0.0, rng.f64() - 0.5, rng.f64() - 0.5);
+            if dim < 3 {
+                v = DVec3::new(0.0, 1.0, 0.0);
+            }
+            let v = (v - u * v.dot(u)).normalize();
+            let delta = 1e-6 * (0.5 + 3.0 * rng.f64());
+            gens.push(lerp(anchor, width, g));
+            gens.push(lerp(anchor, width, g + u * 0.4));
+            gens.push(lerp(anchor, width, g + u * 0.4 + v * delta));
+            for _ in 0..n.saturating_sub(3).min(2) {
+                gens.push(lerp(anchor, width, rand_unit(rng)));
+            }
+        }
+        // all generators in one clump of 4 … 16 % of the box: with periodic boundaries every cell is bounded by far images of the
+        // clump (up to the body diagonal of the box away), in a reflective box by the walls
+        "clump" => {
+            let size = 0.04 + 0.12 * rng.f64();
+            let c = DVec3::new(0.1 + 0.8 * rng.f64(), 0.1 + 0.8 * rng.f64(), 0.1 + 0.8 * rng.f64());
+            for _ in 0..n {
+                gens.push(lerp(anchor, width, c + (rand_unit(rng) - 0.5) * size));
+            }
+        }
+        // strongly non-uniform density: a dense blob of n-8 generators in one corner region and 8 isolated generators far away
+        // (their cells reach across most of the box; size thresholds and locality heuristics meet their worst case here).
+        // The isolated generators come LAST (see `make_mask_local`).
+        "blob_isolated" => {
+            let c = DVec3::new(0.12 + 0.1 * rng.f64(), 0.12 + 0.1 * rng.f64(), 0.12 + 0.1 * rng.f64());
+            for _ in 0..n.saturating_sub(8) {
+                gens.push(lerp(anchor, width, c + (rand_unit(rng) - 0.5) * 0.12));
+            }
+            for k in 0..8 {
+                let t = DVec3::new(
+                    if k & 1 == 0 { 0.55 } else { 0.92 } + 0.05 * rng.f64(),
+                    if k & 2 == 0 { 0.5 } else { 0.9 } + 0.05 * rng.f64(),
+                    if k & 4 == 0 { 0.45 } else { 0.88 } + 0.05 * rng.f64(),
+                );
+                gens.push(lerp(anchor, width, t));
+            }
+        }
+        // one generator in a void surrounded by a dense shell (sphere in 3D, circle in 2D, two flanks in 1D): its cell has about
+        // n faces and 2n vertices -- far beyond anything uniform points produce. The central generator comes FIRST.
+        "void_shell" => {
+            let c = DVec3::splat(0.5);
+            gens.push(lerp(anchor, width, c));
+            for _ in 0..n.saturating_sub(1) {
+                let mut d = rand_unit(rng) - 0.5;
+                if dim < 3 {
+                    d.z = 0.;
+                }
+                if dim < 2 {
+                    d.y = 0.;
+                }
+                if d.length_squared() == 0. {
+                    continue;
+                }
+                let r = 0.3 * (1.0 + 0.02 * rng.f64());
+                gens.push(lerp(anchor, width, c + d.normalize() * r));
+            }
+        }
         _ => panic!("unknown family {}", family),
     }
     // unused coordinates: zero or garbage
@@ -327,8 +404,25 @@ pub fn make(rng: &mut Rng, family: &str, dim: usize, periodic: bool, n: usize) -
 }
 
 pub const FAMILIES: &[&str] = &[
-    "uniform", "cluster", "lattice", "lattice_wall", "on_boundary", "collinear", "coplanar", "cospherical", "cospherical_lattice", "pythagorean", "single", "pair",
+    "uniform", "cluster", "lattice", "lattice_wall", "on_boundary", "collinear", "coplanar", "cospherical", "cospherical_lattice", "pythagorean", "single", "pair", "clump",
 ];
+
+/// localised masks for `blob_isolated`: some of the isolated generators (the last 8), optionally a handful of blob members
+pub fn make_mask_local(rng: &mut Rng, n: usize) -> Vec<bool> {
+    let mut m = vec![false; n];
+    for k in 0..8.min(n) {
+        if rng.chance(0.6) {
+            m[n - 1 - k] = true;
+        }
+    }
+    m[n - 1 - rng.below(8.min(n) as u64) as usize] = true;
+    if rng.bool() {
+        for _ in 0..5 {
+            m[rng.below(n as u64) as usize] = true;
+        }
+    }
+    m
+}
 
 /// random mask kinds: all / none / single / random
 pub fn make_mask(rng: &mut Rng, n: usize) -> Vec<bool> {
